@@ -47,6 +47,26 @@ def b (x : Bool) : String := if x then "1" else "0"
 def trace (l : List Ev) : String :=
   if l.isEmpty then "-" else ",".intercalate (l.map fun ev => ev.kind.str ++ ":" ++ ev.out.str)
 
+def ctlOf : Op → CertT
+  | .sshSign | .sshRenew | .sshRekey | .sshRevoke | .sshSignFull => .ssh
+  | _ => .x509
+
+def whOf (t : String) (ctl : CertT) : CertT :=
+  if t = "unset" then .unset
+  else if t = "typed" then ctl
+  else if t = "other" then (if ctl = .ssh then .x509 else .ssh)
+  else .all
+
+/-- the least change of the fault function under which no enriching / authorizing webhook that is
+    asked answers `ok`: wherever the trace shows such an answer, it becomes `deny` -/
+def standing (e : Env) (op : Op) (c : Cfg) (d : Durable) : Nat → Env
+  | 0 => e
+  | fuel + 1 =>
+    let log := (runOp e op c d).1.log
+    match log.findIdx? (fun ev => (ev.kind == .enrich || ev.kind == .authorize) && ev.out == .ok) with
+    | none => e
+    | some p => standing { e with f := fun n => if n = p then .deny else e.f n } op c d fuel
+
 def evalRun (kv : List (String × String)) : Option String := do
   let op ← op? (← lookup kv "op")
   let ne ← (← lookup kv "e").toNat?
@@ -57,13 +77,22 @@ def evalRun (kv : List (String × String)) : Option String := do
   let g : Nat → Bool := fun i => some i != chk
   let db := (lookup kv "db").getD "1" != "0"
   let usable := (lookup kv "var").getD "-" != "badhook"
+  -- a standing denial: every consulted enriching / authorizing webhook answers allow=false
+  -- whenever asked, i.e. at each position where the fault-free trace has such a call
+  let whdeny := (lookup kv "whdeny").getD "0" != "0"
   let e : Env := { f := faultFn fs, g := g, db := db, hooksUsable := usable }
   let nat (k : String) : Nat := ((lookup kv k).bind String.toNat?).getD 0
   let var := (lookup kv "var").getD "-"
-  let c : Cfg := { e := ne, a := na, ch := nat "ch", n := nat "n", crl := nat "crl" != 0,
-                   ids := if var.startsWith "ids2" then 2 else 1, pend := var.endsWith "pending",
-                   identity := var == "identity" }
+  let ctl := ctlOf op
+  let wh := whOf ((lookup kv "ct").getD "all") ctl
+  let crl : Bool := nat "crl" != 0
+  let ids : Nat := if var.startsWith "ids2" then 2 else 1
+  let pend : Bool := var.endsWith "pending"
+  let ident : Bool := var.endsWith "identity"
+  let c0 : Cfg := { e := ne, a := na, ch := nat "ch", n := nat "n", crl := crl, ids := ids, pend := pend, identity := ident }
+  let c := c0.consulted ctl wh
   let d0 : Durable := {}
+  let e : Env := if whdeny then standing e op c d0 8 else e
   let r := runOp e op c d0
   let d := r.1.d
   let cl := client op r
@@ -135,6 +164,8 @@ def evalSrc (fn : String) : String :=
     ",".intercalate (((signerTable one).map (·.1) ++ internalSigners).toArray.qsort (· < ·)).toList
   | "@callers" =>
     ",".intercalate (((callerTable one).map fun p => p.1 ++ ">" ++ p.2.1).toArray.qsort (· < ·)).toList
+  | "@storers" => ";".intercalate (storerOrder.map fun p => p.1 ++ "=" ++ ">".intercalate p.2)
+  | "@adminStore" => if adminStoreMethods.isEmpty then "-" else ",".intercalate adminStoreMethods
   | "@scepTypes" =>
     let j (l : List String) := "+".intercalate (l.toArray.qsort (· < ·)).toList
     s!"challenged={j challengedTypes} csr={j csrTypes}"
